@@ -130,7 +130,13 @@ def run(tier, seed):
             other = make_run(bseed, cfg, tmp, f"{ci}o", seed=cfg["seed"] + 1)
             st.case({"config": cfg, "variant": "other seed"}, nontrivial=nontrivial)
             st.count("variant=other-seed")
-            if other.tobytes() == base.tobytes():
+            frozen = bool(np.all(base[:-1] == base[:-1, :1])) and bool(np.all(other[:-1] == other[:-1, :1]))
+            if frozen:
+                # every proposal of both runs was rejected: both files repeat the (seed-independent) initial model, so they
+                # coincide whatever the streams are — says nothing about the seeds
+                st.indeterminate += 1
+                st.count("other-seed: both chains never moved")
+            elif other.tobytes() == base.tobytes():
                 st.disagree({"config": cfg}, "different chains", "identical", "other seed")
                 findings.append(Finding("C09", "different seeds give identical chains", {"kind": "seeds"}, {"oracle": "seeds", "config": cfg}))
 
